@@ -175,7 +175,8 @@ PARAM_OPS = [
     ["p", "B1", "power", None],
     # dict: the column format holds {str: float} dictionaries when every object of the class has
     # one (union of keys, NaN-filled), so every block gets one and B0 gets an extra key
-    ["pdict", "B0", "reactionRates", {"nG": 1.5, "nF": 2.5}, {"nG": 1.0}],
+    # (same size, different key set on a non-first block; one more key on another)
+    ["pdict", "B0", "reactionRates", {"nG": 1.5, "nF": 2.5}, {"nG": 1.0, "nF": 2.0}, [["B2", {"nG": 3.0, "n2n": 0.5}], ["B1", {"nG": 4.0, "nF": 0.25, "nA": 0.125}]]],
     # Component: float, no-default float, no-default str, array
     ["p", "K0.clad", "percentBu", 1.75],
     ["p", "K0.fuel", "buRate", 0.0625],
@@ -187,6 +188,11 @@ STATE_OPS = [
     ["nd", "K0.fuel", "U235", "scale", 1.5],  # change an existing number density
     ["nd", "K0.fuel", "PU239", "set", 1.25e-4],  # a nuclide only this component has
     ["nd", "K2.clad", "FE56", "set", 0.0],  # present but zero
+    # replace one nuclide by another (same count, different key set) on a component that is not the
+    # first of its class in layout order; its class mates keep the original set
+    ["ndswap", "K2.duct", "MN55", "AL27"],
+    ["ndswap", "K2.coolant", "NA23", "AL27"],
+    ["ndswap", "K2.clad", "MN55", "AL27"],
     ["temp", "K0.fuel", 700.0],
     ["temp", "K2.duct", 425.0],
     ["dim", "K0.clad", "od", 1.0925],
@@ -202,6 +208,10 @@ STATE_OPS = [
     ["pitch", 17.25],
     ["advance", 1, 2],
     ["full"],
+    ["restore"],  # back to the third core with the same changer (offered only after "full")
+    # write the live reactor to the database of this history NOW and go on to the next time node:
+    # later operations then act on a reactor (and grids) that have already been written once
+    ["write"],
 ]
 
 
@@ -212,6 +222,8 @@ SUB2 = [
     ["ragged", "pinMgFluxes"],
     ["p", "K0.fuel", "pinPercentBu"],
     ["nd", "K0.fuel", "PU239"],
+    ["ndswap", "K2.coolant"],
+    ["write"],
     ["temp", "K0.fuel"],
     ["dim", "K0.clad"],
     ["link"],
@@ -224,8 +236,9 @@ SUB2 = [
     ["pitch"],
     ["advance"],
     ["full"],
+    ["restore"],
 ]
-SUB3 = [["p", "B0", "mgFlux"], ["ragged", "pinMgFluxes"], ["nd", "K0.fuel", "PU239"], ["temp", "K0.fuel"], ["dim", "K0.clad"], ["link"], ["coord"], ["swap"], ["rot", "A0"], ["discharge"], ["height"], ["pitch"], ["advance"], ["full"]]
+SUB3 = [["write"], ["ndswap", "K2.coolant"], ["p", "B0", "mgFlux"], ["ragged", "pinMgFluxes"], ["nd", "K0.fuel", "PU239"], ["temp", "K0.fuel"], ["dim", "K0.clad"], ["link"], ["coord"], ["swap"], ["rot", "A0"], ["discharge"], ["height"], ["pitch"], ["advance"], ["full"], ["restore"]]
 
 
 def _in(op, sub):
@@ -273,7 +286,7 @@ def _alphabet0(init):
     ops = [list(o) for o in PARAM_OPS + STATE_OPS]
     out = []
     for o in ops:
-        if o[0] == "full" and fam != "hex3pins":
+        if o[0] in ("full", "restore") and fam != "hex3pins":
             continue
         if fam.startswith("cart"):
             # the Cartesian block has no plenum/gap; its blocks are [fuel, fuel]
@@ -306,6 +319,8 @@ _TRZ = {
     repr(["nd", "K2.clad", "FE56"]): ["nd", "K2.coolant", "NA23", "scale", 0.5],
     repr(["dim", "K0.clad", "od"]): ["dim", "K0.fuel", "mult", 0.7],
     repr(["dim", "K2.duct", "ip"]): None,
+    repr(["ndswap", "K2.duct"]): None,
+    repr(["ndswap", "K2.clad"]): ["ndswap", "K2.fuel", "ZR90", "AL27"],
     repr(["temp", "K2.duct"]): ["temp", "K2.coolant", 425.0],
     "link": ["link", "K0.coolant", "outer_radius", "fuel", "outer_radius"],
     "unlink": None,
@@ -337,6 +352,8 @@ def enabled(init, hist, tg):
             continue
         if o[0] == "full" and str(core.symmetry.domain).lower().find("third") < 0:
             continue
+        if o[0] == "restore" and (not hist or hist[-1][0] not in ("full", "write") or not any(x[0] == "full" for x in hist)):
+            continue  # only directly after the conversion, or after the converted core was written
         if o[0] == "rot" and tg[o[1]].parent is not core:
             continue
         out.append(o)
@@ -384,8 +401,9 @@ def apply(r, cs, tg, op):
         o.p[op[2]] = _value(o, op[2], op[3])
     elif k == "pdict":
         o = tg[op[1]]
+        special = {id(tg[sel]): v for sel, v in op[5]}
         for x in r.iterChildren(deep=True, predicate=lambda c: type(c) is type(o)):
-            x.p[op[2]] = dict(op[3] if x is o else op[4])
+            x.p[op[2]] = dict(op[3] if x is o else special.get(id(x), op[4]))
     elif k == "raggedall":
         o = tg[op[1]]
         objs = list(r.iterChildren(deep=True, predicate=lambda c: type(c) is type(o)))
@@ -401,6 +419,11 @@ def apply(r, cs, tg, op):
             c.setNumberDensity(op[2], c.getNumberDensity(op[2]) * op[4])
         else:
             c.setNumberDensity(op[2], op[4])
+    elif k == "ndswap":
+        c = tg[op[1]]
+        nd = dict(c.getNumberDensities())
+        nd[op[3]] = nd.pop(op[2])
+        c.setNumberDensities(nd)
     elif k == "temp":
         tg[op[1]].setTemperature(op[2])
     elif k == "dim":
@@ -445,7 +468,10 @@ def apply(r, cs, tg, op):
     elif k == "full":
         from armi.reactor.converters import geometryConverters
 
-        geometryConverters.ThirdCoreHexToFullCoreChanger(cs).convert(r)
+        tg["_changer"] = geometryConverters.ThirdCoreHexToFullCoreChanger(cs)
+        tg["_changer"].convert(r)
+    elif k == "restore":
+        tg["_changer"].restorePreviousGeometry(r)
     else:
         raise AlphabetError("unknown op %r" % (op,))
     return "ok"
